@@ -211,11 +211,13 @@ End Searcher.
 
 (* ---- a concrete plan: context-free line-by-line search (what match_by_line_slow and the fast path both
         deliver when before_context = after_context = 0), matcher = "the line contains one of the needles" ---- *)
-Fixpoint line_ranges (lt : byte) (l : bytes) (s i : nat) : list (nat * nat) :=
+(* (start, end, bytes) of every line of l, l starting at offset i; cur = the current line so far, reversed.
+   (S i, never i + 1: the extracted naturals are unary and must share structure) *)
+Fixpoint line_ranges (lt : byte) (l : bytes) (s i : nat) (cur : bytes) : list (nat * nat * bytes) :=
   match l with
-  | [] => if Nat.eqb s i then [] else [(s, i)]
-  | x :: xs => if N.eqb x lt then (s, i + 1) :: line_ranges lt xs (i + 1) (i + 1)
-               else line_ranges lt xs s (i + 1)
+  | [] => match cur with [] => [] | _ => [(s, i, rev cur)] end
+  | x :: xs => if N.eqb x lt then (s, S i, rev (x :: cur)) :: line_ranges lt xs (S i) (S i) []
+               else line_ranges lt xs s (S i) (x :: cur)
   end.
 
 Fixpoint contains (needle hay : bytes) : bool :=
@@ -224,13 +226,12 @@ Fixpoint contains (needle hay : bytes) : bool :=
 (* c_pos: the slow path and the plain fast path set pos = line.end() before sinking a line; the inverted fast
    path (match_by_line_fast_invert) has already moved pos past the next line the matcher finds (or to the end
    of the buffer) while it sinks the lines of the inverted range *)
-Fixpoint lite_calls (needles : list bytes) (invert passthru : bool) (buf : bytes) (rs : list (nat * nat))
-  : list call * nat :=
+Fixpoint lite_calls (needles : list bytes) (invert passthru : bool) (buf_len : nat)
+         (rs : list (nat * nat * bytes)) : list call * nat :=
   match rs with
-  | [] => ([], length buf)
-  | (s, e) :: rs' =>
-    let (rest, nxt) := lite_calls needles invert passthru buf rs' in
-    let line := sub buf s e in
+  | [] => ([], buf_len)
+  | (s, e, line) :: rs' =>
+    let (rest, nxt) := lite_calls needles invert passthru buf_len rs' in
     let success := negb (Bool.eqb (existsb (fun n => contains n line) needles) invert) in
     if success then
       (mk_call true KOther s e false (if invert && negb passthru then nxt else e) :: rest, nxt)
@@ -239,7 +240,7 @@ Fixpoint lite_calls (needles : list bytes) (invert passthru : bool) (buf : bytes
   end.
 
 Definition lite_plan (needles : list bytes) (invert passthru : bool) (lt : byte) (buf : bytes) : list call :=
-  fst (lite_calls needles invert passthru buf (line_ranges lt buf 0 0)).
+  fst (lite_calls needles invert passthru (length buf) (line_ranges lt buf 0 0 [])).
 
 (* Core::roll with max_context() == 0: everything is consumed; the core has no other state here *)
 Definition lite_roll (_ : unit) (buf : bytes) : nat * unit := (length buf, tt).
